@@ -61,6 +61,18 @@ def fresh_dir(path):
 
 
 def gen_cases(exe, out, plan, n, seed, variants="", whitebox=False, render=True, extra=None, first_id=1):
+    if plan.startswith("corpus:"):
+        # a committed corpus of inputs with a rare measured premise (driver/harvest.py); ids are
+        # in a reserved range, n caps how many are used
+        src = os.path.join(VERIF, "corpus", plan.split(":", 1)[1] + ".cases")
+        cnt = 0
+        with open(src) as fin, open(out, "w") as fo:
+            for line in fin:
+                if cnt >= n:
+                    break
+                fo.write(line)
+                cnt += 1
+        return cnt
     cmd = [exe, "cases", "--plan", plan, "--n", str(n), "--seed", str(seed), "--out", out,
            "--first-id", str(first_id)]
     if variants:
